@@ -508,6 +508,7 @@ def run(P, rep, tier):
         if dv.get('e') is not None and any(x[0] == 'v' and x[1] == 'max_tile_size' for x in subexprs(dv['e'])):
             derived[dv['n']] = dv['e']
     bad = []
+    evaluated = 0
     samples = [1, 255, 256, 257, 65535, 65536, 65537, 0xFFFFF, 0x100000, 0x100001, 0xFFFFFF, 0x1000000, 0x1000001, 0x7FFFFFFF]
     for v in samples:
         loc = {'max_tile_size': v}
@@ -533,9 +534,13 @@ def run(P, rep, tier):
                 break
         if chosen is None:
             continue
+        evaluated += 1
         if v - 1 >= 256 ** (chosen + 1):
             bad.append('a largest tile of %d bytes gets a %d-byte field (stores up to %d)' % (v, chosen + 1, 256 ** (chosen + 1) - 1))
+    if evaluated < len(samples) - 2:
+        # a selection chain the evaluator cannot follow decides nothing: never a silent pass
+        raise AnalysisBroken('tile size width selection in write_tile_info could be evaluated for %d of %d boundary sizes only' % (evaluated, len(samples)))
     rep.ob('C02.BYTEWIDTH', 'write_tile_info/tile_size_bytes', not bad, wti.loc(guarded[0][0]),
-           ('the announced tile size field holds tile_size - 1 for every one of %d boundary sizes' % len(samples)) if not bad else
+           ('the announced tile size field holds tile_size - 1 for every one of %d boundary sizes' % evaluated) if not bad else
            ('the tile size field width chosen in write_tile_info is too narrow: %s; only the low bytes of the size are stored and a decoder splits the tile data at the wrong offset' % '; '.join(bad[:3])))
     rep.floor('C02.BYTEWIDTH', 1)
